@@ -96,6 +96,59 @@ func constStringArgs(fn *ssa.Function, callee string, idx int) map[string]bool {
 }
 
 func runC02(c *Ctx) {
+	c02ConstPool(c)
+	c.rule("C02-R9", "ID: a table from which entries are deleted never takes the key of a new entry from its own size: every update m[k] of a struct-field map in pkg/vm / pkg/interpreter whose key derives from len(m), while the package also deletes from m, is a collision (a live entry - an enclosing loop's iterator - is overwritten once a lower key was deleted). Fresh keys come from a counter that only grows")
+	{
+		n := 0
+		for _, rel := range []string{vmPkg, interpPkg} {
+			deleted := map[string]bool{}
+			for _, fn := range c.srcFuncs(rel) {
+				eachCall(fn, func(call ssa.CallInstruction) {
+					if callName(call) == "builtin.delete" {
+						if named, fld, ok := fieldOfLoad(call.Common().Args[0]); ok {
+							deleted[named+"."+fld] = true
+						}
+					}
+				})
+			}
+			for _, fn := range c.srcFuncs(rel) {
+				k := 0
+				eachInstr(fn, func(_ *ssa.BasicBlock, _ int, ins ssa.Instruction) {
+					mu, ok := ins.(*ssa.MapUpdate)
+					if !ok {
+						return
+					}
+					named, fld, ok := fieldOfLoad(mu.Map)
+					if !ok {
+						return
+					}
+					n++
+					if !deleted[named+"."+fld] {
+						return
+					}
+					fromLen := derivesFrom(mu.Key, func(v ssa.Value) bool {
+						la := lenArg(v)
+						if la == nil {
+							return false
+						}
+						n2, f2, ok := fieldOfLoad(la)
+						return ok && n2 == named && f2 == fld
+					})
+					if fromLen {
+						k++
+						c.ob("C02-R9", fnKey(fn)+"#new-key-from-table-size:"+named+"."+fld+"-"+itoa(k), mu.Pos(), false, "the key of a new "+named+"."+fld+" entry is computed from len("+fld+") although entries are deleted from that table: after a lower key is deleted the size names a key that is still in use, and the new entry replaces a live one (nested loops on the VM then iterate the wrong collection or never finish, while the interpreter is unaffected)")
+					}
+				})
+			}
+		}
+		c.Sites["C02-R9#field-map-updates-examined"] = n
+		c.ob("C02-R9", vmPkg+"#fresh-keys-not-from-table-size", token.NoPos, true, "")
+		if n < 5 {
+			c.undecided("C02-R9: %d struct-field map updates found in the engines, floor 5", n)
+		}
+	}
+	c.rule("C02-R8", "STALE: no sync.Once body in cmd/glyph or the engines computes its result from a package-level variable that is assigned again after initialisation (compiledTypeDefs and friends are replaced by every setupRoutes): the compiled path would keep validating/binding against the first program's definitions while the interpreter uses the current ones")
+	c.Sites["C02-R8#once-bodies"] = staleOnceAudit(c, "C02-R8", []string{glyphCmd, interpPkg, vmPkg, compilerPkg})
 	c.rule("C02-R1", "TBL: the opcode tables of VM, compiler and decompiler agree (arm, operand-ness, name, jump relocation set, emit sites) — same rule as C10-R1")
 	opcodeTableRule(c, "C02-R1")
 
@@ -570,4 +623,129 @@ func calleesIn(fn *ssa.Function, rel string) []*ssa.Function {
 		}
 	})
 	return out
+}
+
+
+// c02ConstPool: R10 - constant-pool deduplication never merges constants of different kinds.
+func c02ConstPool(c *Ctx) {
+	c.rule("C02-R10", "KIND: Compiler.addConstant merges two constants only when they have the same concrete vm.Value kind: an equality helper answers non-false only where both operands were asserted to the same type, and a key function gives every kind its own constant prefix. An int literal and a float literal of equal value sharing a slot changes the run-time type of one of them (7/2 becomes 3 or 3.5 depending on which came first) only in the compiled engine")
+	add := c.mustFn("C02-R10", compilerPkg, "Compiler.addConstant")
+	if add == nil {
+		return
+	}
+	isVMValue := func(t types.Type) bool { return typeIs(t, vmPath, "Value") }
+	analysed := 0
+	eachCall(add, func(call ssa.CallInstruction) {
+		g := staticFn(call)
+		if g == nil || g.Pkg == nil || g.Pkg.Pkg.Path() != modPath+"/"+compilerPkg {
+			return
+		}
+		sig := g.Signature
+		// (a) equality helper: (Value, Value) bool
+		if sig.Params().Len() == 2 && isVMValue(sig.Params().At(0).Type()) && isVMValue(sig.Params().At(1).Type()) && sig.Results().Len() == 1 {
+			analysed++
+			pa, pb := ssa.Value(g.Params[len(g.Params)-2]), ssa.Value(g.Params[len(g.Params)-1])
+			okAll, n := true, 0
+			why := ""
+			eachInstr(g, func(_ *ssa.BasicBlock, _ int, ins ssa.Instruction) {
+				r, ok := ins.(*ssa.Return)
+				if !ok || isConstBool(retVals(r)[0], false) {
+					return
+				}
+				n++
+				// the asserted kinds that dominate this return, per parameter
+				var ta, tb []types.Type
+				eachInstr(g, func(_ *ssa.BasicBlock, _ int, x ssa.Instruction) {
+					as, ok := x.(*ssa.TypeAssert)
+					if !ok || !as.CommaOk {
+						return
+					}
+					// the ok-edge must dominate the return
+					for _, ex := range extractOf(as, 1) {
+						for _, ref := range refs(ex) {
+							if iff, ok := ref.(*ssa.If); ok {
+								s0 := iff.Block().Succs[0]
+								if len(s0.Preds) == 1 && (s0 == r.Block() || s0.Dominates(r.Block())) {
+									if as.X == pa {
+										ta = append(ta, as.AssertedType)
+									}
+									if as.X == pb {
+										tb = append(tb, as.AssertedType)
+									}
+								}
+							}
+						}
+					}
+				})
+				same := false
+				// `_, ok := b.(T); return ok`: the result is itself the assertion of the other operand
+				if ex, ok := retVals(r)[0].(*ssa.Extract); ok && ex.Index == 1 {
+					if as, ok := ex.Tuple.(*ssa.TypeAssert); ok {
+						if as.X == pb {
+							tb = append(tb, as.AssertedType)
+						}
+						if as.X == pa {
+							ta = append(ta, as.AssertedType)
+						}
+					}
+				}
+				for _, x := range ta {
+					for _, y := range tb {
+						if types.Identical(x, y) {
+							same = true
+						}
+					}
+				}
+				if !same {
+					okAll = false
+					why = "a non-false result at " + c.pos(r.Pos()) + " is not dominated by assertions of both operands to one and the same kind"
+				}
+			})
+			c.ob("C02-R10", fnKey(g)+"#equal-only-within-one-kind", g.Pos(), okAll && n > 0, "the pool's equality helper can answer true for constants of different kinds ("+why+")")
+		}
+		// (b) key function: (Value) (string[, bool])
+		if sig.Params().Len() == 1 && isVMValue(sig.Params().At(0).Type()) && sig.Results().Len() >= 1 {
+			if bt, ok := sig.Results().At(0).Type().Underlying().(*types.Basic); ok && bt.Kind() == types.String {
+				analysed++
+				prefixes := map[string]string{}
+				dup := ""
+				unknown := 0
+				eachInstr(g, func(_ *ssa.BasicBlock, _ int, ins ssa.Instruction) {
+					r, ok := ins.(*ssa.Return)
+					if !ok {
+						return
+					}
+					v := retVals(r)[0]
+					pre, known := "", false
+					switch x := v.(type) {
+					case *ssa.Const:
+						pre, known = x.Value.ExactString(), true
+						if pre == `""` {
+							return // the "not poolable" result
+						}
+					case *ssa.BinOp:
+						if k, ok := x.X.(*ssa.Const); ok && x.Op == token.ADD {
+							pre, known = k.Value.ExactString(), true
+						}
+					}
+					if !known {
+						unknown++
+						return
+					}
+					if prev, seen := prefixes[pre]; seen {
+						dup = pre + " (" + prev + " and " + c.pos(r.Pos()) + ")"
+					}
+					prefixes[pre] = c.pos(r.Pos())
+				})
+				if unknown > 0 {
+					c.info("C02-R10", fnKey(g)+"#key-prefixes-not-analysed", g.Pos(), "key function builds keys in a form this rule does not decompose ("+itoa(unknown)+" results)")
+				} else {
+					c.ob("C02-R10", fnKey(g)+"#one-key-prefix-per-kind", g.Pos(), dup == "", "two kinds of constant are given the same key prefix "+dup+": an int and a float of equal value collide in the pool and one of them changes its run-time type")
+				}
+			}
+		}
+	})
+	if analysed == 0 {
+		c.info("C02-R10", fnKey(add)+"#dedup-mechanism-not-recognised", add.Pos(), "addConstant deduplicates through neither a (Value,Value) equality helper nor a (Value) string key function of this package; kind-strictness not decided")
+	}
 }
